@@ -11,7 +11,8 @@ import (
 // propertyExtras returns the obligations produced by property-specific generators.
 func propertyExtras(eng *Engine, prop, tier, vdir string) (extras []Extra, bounded []string, notes []string) {
 	switch prop {
-	case "C15":
+	case "C15", "C09":
+		// (C09 rests on the same anchored expressions: a too permissive expression makes near-miss comments annotations)
 		ex, n := relangExtras(eng, vdir)
 		extras = append(extras, ex...)
 		notes = append(notes, n...)
